@@ -9,7 +9,7 @@ CONSTANTS
   Depth = 4
   FullDepth = 2
   WideDepth = 3
-  Wide = {"idn", "describe", "read_p", "read_hw", "change_p3", "change_p7", "change_s", "do_cmd", "ping", "activate", "deactivate", "deactivate_m", "logging_on", "empty", "bad_utf8_act", "bad_json", "missing_data", "extra_read", "crlf", "lead_blank", "lead_badjson", "double_sp", "long_valid", "unknown", "c_request", "c_ident", "nonascii_badjson", "deep_list_open", "deep_dict_50k", "deep_dict", "read_k", "read_broken", "change_m", "do_stop", "change_t", "read_t", "surrogate_t"}
+  Wide = {"idn", "read_p", "read_hw", "change_p3", "change_p7", "do_cmd", "ping", "activate", "deactivate", "deactivate_m", "empty", "bad_utf8_act", "bad_json", "missing_data", "crlf", "lead_blank", "lead_badjson", "unknown", "c_ident", "nonascii_badjson", "deep_list_open", "deep_dict_50k", "deep_dict", "read_k", "read_broken", "change_m", "do_stop", "change_t", "read_t", "surrogate_t"}
   Core = {"read_p", "change_p3", "change_p7", "activate", "deactivate_m", "empty", "bad_json", "lead_badjson", "bad_utf8_act", "crlf", "c_ident", "unknown", "deep_list_open"}
 INVARIANT EmitC
 CHECK_DEADLOCK FALSE
